@@ -265,7 +265,7 @@ def op_zst_nested_input(p, r):
         m = add_method(op, "bad_zst", None, [("z", raw("DiplomatOption<ZstBad>"))], ("prim", "u8"))
         return op.name, m.name, "zero-sized struct inside a DiplomatOption argument"
     if v in (2, 3):
-        st = first(p, "struct", lambda t: not t.lifetimes)
+        st = first(p, "struct", lambda t: not t.lifetimes and t.name != "ZstBad")
         if not st:
             return None
         st.fields.insert(r.randrange(len(st.fields) + 1), ("bad", raw("ZstBad") if v == 2 else raw("DiplomatOption<ZstBad>")))
